@@ -170,6 +170,33 @@ def run(tier, seed):
                     a.sig = other.sign(msg)
                     B.run_case(impl.AuthPolicy(pol0.challenge, pol0.rp_id, pol0.origin, cb, pol0.count, False), a, "record", "reject", f"{decl.pk.curve.name} member {member} as {what}: signed by the negated key")
                     chk.seen(("alt-form", kind, member, what))
+    # the registry members (kty, alg, crv) in other spellings: as floating-point numbers (integral or not), as their registry NAMES in text, as bignums, booleans:
+    # a key is usable only under exactly the integer ids the table lists - nothing near them, nothing that merely reads like them
+    NAMES = {1: {1: "OKP", 2: "EC2", 3: "RSA"}, 3: {-7: "ES256", -8: "EdDSA", -36: "ES512", -257: "RS256", -37: "PS256", -65535: "RS1", -258: "RS384", -259: "RS512", -38: "PS384", -39: "PS512"}, -1: {1: "P-256", 2: "P-384", 3: "P-521", 6: "Ed25519"}}
+    for kind in ("ES256-P256", "ES512-P521", "RS256", "PS256", "EdDSA", "RS1"):
+        cr = authsim.Cred(kind)
+        s = authcat.Scn(kind)
+        pol0, a = s.build()
+        base_map = dict(cr.cose_map())
+        for member in (1, 3, -1):
+            if member not in base_map or not isinstance(base_map[member], int):
+                continue
+            v = base_map[member]
+            alts = [("float equal to the id", float(v)), ("float just below the id", float(v) - 0.5), ("float just above the id", float(v) + 0.25), ("float that truncates to the id", float(v) + (0.9 if v > 0 else -0.9)),
+                    ("the registry name as text", NAMES[member].get(v, "x")), ("the id as text", str(v)), ("a one-element array", [v]), ("a bignum", cbor2.CBORTag(2 if v >= 0 else 3, (v if v >= 0 else -1 - v).to_bytes(2, "big"))),
+                    ("a byte string", (v if v >= 0 else -1 - v).to_bytes(2, "big")), ("a boolean", bool(v)), ("null", None), ("the id plus 2^64", v + 2 ** 64), ("the id minus 2^32", v - 2 ** 32)]
+            for what, av in alts:
+                m = dict(base_map)
+                m[member] = av
+                try:
+                    cb = cbor2.dumps(m)
+                except Exception:
+                    continue
+                # (an integral float decodes to a value that EQUALS the id in Python; the unchanged library's verdict on it is whatever it is - the model decides; every
+                #  other spelling is no registered id)
+                exp = None if what in ("float equal to the id", "a bignum") else "reject"
+                B.run_case(impl.AuthPolicy(pol0.challenge, pol0.rp_id, pol0.origin, cb, pol0.count, False), a, "record", exp, f"{kind} COSE member {member} as {what}")
+                chk.seen(("registry-member-form", kind, member, what))
     for slot in range(2):
         c = authsim.Cred("RS256", slot=slot)
         m = c.cose_map()
